@@ -254,10 +254,18 @@ public:
    */
   AssociationGraphImplObserver<N, E, GraphImpl>& operator=(bpp::AssociationGraphImplObserver<N, E, GraphImpl> const& graphObserver)
   {
-    this->graphidToN_.resize(graphObserver.graphidToN_.size());
-    this->graphidToE_.resize(graphObserver.graphidToE_.size());
-    this->indexToN_.resize(graphObserver.indexToN_.size());
-    this->indexToE_.resize(graphObserver.indexToE_.size());
+    if (this == &graphObserver)
+      return *this;
+
+    // what was associated so far is forgotten
+    this->graphidToN_.assign(graphObserver.graphidToN_.size(), Nref());
+    this->graphidToE_.assign(graphObserver.graphidToE_.size(), Eref());
+    this->indexToN_.assign(graphObserver.indexToN_.size(), Nref());
+    this->indexToE_.assign(graphObserver.indexToE_.size(), Eref());
+    this->NToGraphid_.clear();
+    this->EToGraphid_.clear();
+    this->NToIndex_.clear();
+    this->EToIndex_.clear();
 
     for (const auto& itN:graphObserver.NToGraphid_)
     {
@@ -291,9 +299,13 @@ public:
       }
     }
 
-    this->subjectGraph_ = graphObserver.getGraph();
-
-    this->getGraph()->registerObserver(this);
+    // observing the graph of graphObserver instead of the former one
+    if (this->subjectGraph_ != graphObserver.subjectGraph_)
+    {
+      this->getGraph()->unregisterObserver(this);
+      this->subjectGraph_ = graphObserver.subjectGraph_;
+      this->getGraph()->registerObserver(this);
+    }
 
     return *this;
   }
